@@ -12,7 +12,10 @@ base = json.load(open("/root/.vp/BASELINE.json"))
 want = set(base["stable_pass"])
 with tempfile.TemporaryDirectory() as td:
     xml = os.path.join(td, "r.xml")
-    env = dict(os.environ, PYTHONPATH=os.path.join(repo, "src"))
+    # mxlpy's SBML importer writes generated modules to ~/.cache/mxlpy: give every
+    # run its own HOME so that concurrent runs do not race on those files
+    home = os.path.join(td, "home"); os.makedirs(home)
+    env = dict(os.environ, PYTHONPATH=os.path.join(repo, "src"), HOME=home)
     subprocess.run(
         ["/venv/bin/python", "-m", "pytest", "-q", "-p", "no:cacheprovider", "--timeout=900",
          "--continue-on-collection-errors", f"--junitxml={xml}", "-x" if False else "-q", *extra],
